@@ -288,13 +288,20 @@ def run(ctx):
         ('<mithril_aggregator::runtime::runner::AggregatorRunner as mithril_aggregator::runtime::runner::AggregatorRunnerTrait>::open_signer_registration_round',
          ['*::SignerRegistrationRoundOpener::open_registration_round'], 1, EP + 'offset_to_recording_epoch', 'aggregator opens the round for the recording epoch'),
     ]
+    # the message parts about the NEXT epoch are computed from the key material stored for the next retrieval epoch (seed C20-3: the next
+    # protocol parameters were read at the current retrieval epoch, so every signature of an epoch in which parameters change was refused)
+    SSB = '<' + SG + 'services::signable_builder::signable_seed_builder::SignerSignableSeedBuilder as mithril_common::signable_builder::interface::SignableSeedBuilder>::'
+    for meth in ('compute_next_aggregate_verification_key_for_concatenation', 'compute_next_protocol_parameters'):
+        sites.append((SSB + meth, ['*::ProtocolInitializerStorer::get_protocol_initializer'], 1, EP + 'offset_to_next_signer_retrieval_epoch',
+                      'signer %s: initializer of the next retrieval epoch' % meth))
     for fn, callee, argi, off, what in sites:
         f = ctx.try_fn('e', fn)
         if f is None:
             continue
         lf = f.logic()
         cs = ctx.call_sites(lf.body, callee)
-        okk = bool(cs) and all(has(fn_origins(lf, c.args[argi], True), 'call:' + off) for c in cs)
+        others = [o for c in cs for o in fn_origins(lf, c.args[argi], True) if o.startswith('call:' + EP + 'offset_to_') and o != 'call:' + off]
+        okk = bool(cs) and all(has(fn_origins(lf, c.args[argi], True), 'call:' + off) for c in cs) and not others
         if okk:
             R.ok('e', 'R5', what, '', f.loc())
         else:
@@ -310,6 +317,38 @@ def run(ctx):
             R.ok('e', 'R5', 'aggregator inform_epoch: current signers <- retrieval epoch, next signers <- next retrieval epoch', str(sorted(offs)), f.loc())
         else:
             R.violation('e', 'R5', 'aggregator inform_epoch: current signers <- retrieval epoch, next signers <- next retrieval epoch', 'offset-site:aggregator-inform-epoch', str(sorted(offs)), f.loc())
+
+
+def _round2_rules(ctx):
+    R = ctx.report
+    REGF = '<' + SG + 'runtime::runner::SignerRunner as ' + SG + 'runtime::runner::Runner>::register_signer_to_aggregator'
+    # the key material is stored only once the aggregator has accepted the registration (seed C20-4: stored first, a refused / failed
+    # registration left keys the aggregator never received, and every retry skipped the registration)
+    rf = ctx.try_fn('c', REGF)
+    if rf is not None:
+        ctx.order('c', rf, ('register_signer', ['*::SignerRegistrationPublisher::register_signer']),
+                  ('save_protocol_initializer', ['*::ProtocolInitializerStorer::save_protocol_initializer']))
+    # the beacon is computed for the time point on which the state machine decided that the epoch has not changed (seed C20-5: the runner
+    # re-read the ticker, so a beacon of the next epoch could be signed with the keys of the current one and be marked as signed)
+    GB = '<' + SG + 'runtime::runner::SignerRunner as ' + SG + 'runtime::runner::Runner>::get_beacon_to_sign'
+    gf = ctx.try_fn('c', GB)
+    if gf is not None:
+        ctx.sink_arg('c', gf.name, ['*::CertifierService::get_beacon_to_sign'], 1, require=['p#2'],
+                     forbid=['call:*::TickerService::get_current_time_point', 'call:*::Runner::get_current_time_point', 'call:*get_current_time_point*'],
+                     desc='(time point) <- the time point handed in by the state machine, not a fresh read of the chain', depth=2, key='beacon:time-point')
+    cyc = ctx.try_fn('c', SM + 'cycle_ready_to_sign')
+    if cyc is not None:
+        # ... and that is the time point has_epoch_changed was evaluated on
+        lc = cyc.logic()
+        gb_sites = ctx.closure_sites(cyc, ['*::Runner::get_beacon_to_sign'], depth=2)
+        tps = ctx.closure_sites(cyc, ['*::Runner::get_current_time_point'], depth=2)
+        inst = 'cycle_ready_to_sign: the beacon is asked for the time point the epoch-change test looked at (one read of the chain per cycle)'
+        if gb_sites and len(tps) == 1:
+            R.ok('c', 'R5', inst, '', cyc.loc())
+        elif gb_sites and tps:
+            R.violation('c', 'R5', inst, 'cycle:one-time-point', 'the chain is read %d times in the cycle' % len(tps), cyc.loc())
+        else:
+            R.info('c', 'cycle_ready_to_sign: beacon / time point sites not found in this layout')
 
 
 # ---------------------------------------------------------------- added after seeds C20-1 / C20-2: epoch ROLES
@@ -407,3 +446,4 @@ _run_c20 = run
 def run(ctx):  # noqa: F811
     _run_c20(ctx)
     _role_rules(ctx)
+    _round2_rules(ctx)
